@@ -304,8 +304,12 @@ impl Gen {
     if matches!(p, Profile::File | Profile::BadFile) {
       cfg.backend = 2;
     }
+    // growing and shrinking goes through a different code path for each backend
+    if p == Profile::Trunc {
+      cfg.backend = r.weighted(&[50, 20, 30]) as u8;
+    }
     // a file-backed arena may start at an offset inside its file
-    if cfg.backend == 2 && r.chance(30) {
+    if cfg.backend == 2 && r.chance(if p == Profile::Trunc { 50 } else { 30 }) {
       cfg.offset = r.pick(&[64u64, 4096, 4160, 8192]); // multiples of the largest type alignment used (a mapping offset that is not one makes every typed allocation misaligned)
     }
     let prefix = cfg.prefix();
@@ -1006,7 +1010,13 @@ impl Gen {
     let (al, cap, d) = (ai.allocated as u64, ai.capacity as u64, ai.data_offset as u64);
     let c = [0, 1, d.saturating_sub(1), d, al.saturating_sub(1), al, al + 1, cap.saturating_sub(1), cap, cap + 1,
       2 * cap, 4 * cap, self.rng.range(0, 4 * cap), self.rng.range(al, 2 * cap.max(al))];
-    let n = self.rng.pick(&c);
+    let mut n = self.rng.pick(&c);
+    // with a mapping offset: growth up to and just beyond the offset (file length = offset + capacity)
+    let moff = self.cfg.as_ref().map(|c| c.offset).unwrap_or(0);
+    if moff > 0 && self.rng.chance(50) {
+      let ps = page_size() as u64;
+      n = self.rng.pick(&[cap + moff - 1, cap + moff, cap + moff + 1, cap + ps, cap + moff / 2, (cap + ps).next_multiple_of(ps)]);
+    }
     // the user's reserved bytes move with the memory
     let mark = self.rng.chance(50);
     if mark {
